@@ -3,6 +3,8 @@
 
 pub mod enumerate;
 #[cfg(feature = "pbt")]
+pub mod fuzzrun;
+#[cfg(feature = "pbt")]
 pub mod random;
 
 use crate::common::*;
